@@ -41,9 +41,10 @@ ASSUMPTIONS = [
     'the never-credited lane (30 s consumption guard) runs in the thorough tier only',
     'READY payloads are checked for success flag / tag / exception family only (content fidelity is C12)',
 ]
-JOBS = 12
+JOBS = 14
 SPEC_TIMEOUT = 240
-CONFIRM_ALONE = ('worker_silent', 'exit_delayed_after_consumption', 'scenario_hung', 'guard_exit_never')
+CONFIRM_ALONE = ('worker_silent', 'exit_delayed_after_consumption', 'scenario_hung', 'guard_exit_never',
+                 'job_not_accepted', 'job_not_resolved')
 FLOORS = {
     'quick': {'iso:lifetimes': 60, 'iso:ack': 200, 'iso:ready': 150, 'iso:nack_sent': 45,
               'iso:death_155': 30, 'iso:spawn_lifetimes': 10, 'iso:fork_lifetimes': 45,
@@ -73,7 +74,7 @@ PLAIN = ('ok', 'none', 'sleep', 'big', 'gate')
 def plan(tier, seed):
     specs = []
     if tier == 'quick':
-        n_fork, n_spawn, per_fork, per_spawn = 16, 8, 8, 4
+        n_fork, n_spawn, per_fork, per_spawn = 18, 8, 6, 3
         n_pool, n_parent, hist = 14, 2, 600
     else:
         n_fork, n_spawn, per_fork, per_spawn = 44, 16, 12, 6
@@ -149,7 +150,7 @@ def gen_lifetime(rng, method, tier, guard=False):
         elif kind == 'exc_unpick':
             d['what'] = rng.choice(['lambda', 'gen', 'lock'])
         elif kind == 'gate':
-            d['maxwait'] = 30.0
+            d['maxwait'] = 10.0
         j = {'id': ids[k], 'i': None if p['i_style'] == 'none' else rng.randrange(0, 6),
              'desc': d,
              'nack': syn and rng.random() < nack_rate,
@@ -418,26 +419,8 @@ def drive_lifetime(p, rec):
 
 
 def _blocked_sample(pid, inodes):
-    """(queue name, cpu ticks) when the process sleeps in read() on one of the
-    given pipes, else None"""
-    try:
-        with open('/proc/%d/syscall' % pid) as f:
-            sc = f.read().split()
-        with open('/proc/%d/stat' % pid) as f:
-            st = f.read()
-        rest = st[st.rindex(')') + 2:].split()
-        if rest[0] != 'S' or not sc or sc[0] != '0':      # read(2) on x86_64
-            return None
-        fd = int(sc[1], 16)
-        link = os.readlink('/proc/%d/fd/%d' % (pid, fd))
-        if not link.startswith('pipe:['):
-            return None
-        name = inodes.get(int(link[6:-1]))
-        if name is None:
-            return None
-        return (name, int(rest[11]) + int(rest[12]))
-    except (OSError, ValueError, IndexError):
-        return None
+    from vmon.c03_helpers import blocked_sample
+    return blocked_sample(pid, inodes)
 
 
 def _plain_args(typ, args, bpool):
@@ -613,7 +596,9 @@ def judge_lifetime(p, h, rec):
                     rec.count('iso:syn_delay_long')
             go = h.get('gate_opened', {}).get(jid)
             en = ends.get(tag)
-            if go and en:
+            gate_seen = next((a.get('value') for typ, a, _t in h['stream']
+                              if typ == READY and a.get('job') == jid), None)
+            if go and en and isinstance(gate_seen, list) and gate_seen[2:] == [True]:
                 rec.count('iso:gate_checked')
                 if en[0]['t'] < go:
                     V('task_finished_before_ack_was_readable', kattr, task_end=en[0]['t'],
@@ -860,8 +845,12 @@ def judge_pool(sc, p, obs, ev, attrs, rec):
         a.update(extra or {})
         rec.violation(kind, a, params=p, **detail)
 
+    if obs.get('deadlock'):
+        V('worker_deadlocked', {'blocked_on': 'synq'}, deadlock=obs['deadlock'],
+          events_tail=ev[-8:])
+        return
     if sc == 'synack' and not obs.get('blockers_accepted'):
-        rec.anomaly('blockers_not_accepted_in_time', params=p)
+        V('job_not_accepted', {'phase': 'first_jobs'}, waited=30, events_tail=ev[-8:])
         return
     kinds = {j['tag']: j['desc']['kind'] for j in p['jobs']}
     n_ref = 0
@@ -1172,6 +1161,24 @@ def run_parent_spec(spec, rec):
             rec.sample({'lane': 'parent', 'synack': synack, 'history': hist,
                         'observed': [list(x[:3]) for x in log]})
     run_parent_map(spec, rec, bpool, deliver, cache, counters)
+    # outside the property as worded (raising callbacks are not quantified
+    # over), recorded as an anomaly only: with the handshake on, an accept
+    # callback that raises leaves the worker without any answer
+    try:
+        cache.clear()
+        calls = []
+
+        def boom(pid, t):
+            raise ValueError('accept callback failure')
+        r = bpool.ApplyResult(cache, None, boom, send_ack=lambda *a: calls.append(a))
+        deliver((ACK, (r._job, None, 1.0, 5000001, 9)))
+        if not calls:
+            rec.anomaly('raising_accept_callback_leaves_worker_unanswered',
+                        accepted=r.accepted(), send_ack_calls=calls)
+        else:
+            rec.count('parent:raising_accept_callback_answered')
+    except BaseException as e:            # noqa
+        rec.anomaly('raising_accept_callback_escapes_result_handler', error=repr(e))
 
 
 def run_parent_map(spec, rec, bpool, deliver, cache, counters):
